@@ -61,8 +61,8 @@ impl<T> Mutex<T> {
         let Some(h) = hook() else {
             return self.0.lock();
         };
+        h(Event::Point);
         loop {
-            h(Event::Point);
             match self.0.try_lock() {
                 Ok(g) => return Ok(g),
                 Err(TryLockError::Poisoned(p)) => return Err(p),
